@@ -102,15 +102,20 @@ class Parser:
         if self.is_id("where"):
             self.take()
             where = self.expr()
-        self.take("id", "order")
-        self.take("id", "by")
-        self.take("id", "created_at")
-        self.take("id", "desc")
-        self.take("id", "limit")
-        limit = self.take("num")[1]
+        order = None
+        if self.is_id("order"):
+            self.take()
+            self.take("id", "by")
+            self.take("id", "created_at")
+            self.take("id", "desc")
+            order = "created_at DESC"
+        limit = None
+        if self.is_id("limit"):
+            self.take()
+            limit = self.take("num")[1]
         if self.peek()[0] != "eof":
             raise Unsupported("trailing tokens %r" % (self.t[self.i:],))
-        return dict(columns=cols, where=where, limit=limit, order="created_at DESC")
+        return dict(columns=cols, where=where, limit=limit, order=order)
 
     def expr(self):
         node = self.term()
